@@ -111,7 +111,10 @@ fn still_fails(judge: &Judge, evs: &[Ev], prop: &str, monitor: &str, kf: &Findin
     judge(evs).iter().any(|v| v.prop == prop && v.monitor == monitor && match_finding(kf, v).map(|k| k.id.as_str()) == want_kf)
 }
 
-pub fn ddmin(judge: &Judge, events: &[Ev], prop: &str, monitor: &str, kf: &Findings, want_kf: Option<&str>) -> Vec<Ev> {
+pub fn ddmin(judge: &Judge, events: &[Ev], prop: &str, monitor: &str, kf: &Findings, want_kf: Option<&str>, keep_indices: bool) -> Vec<Ev> {
+    if keep_indices {
+        return ddmin_nop(judge, events, prop, monitor, kf, want_kf);
+    }
     let mut cur: Vec<Ev> = events.to_vec();
     let mut n = 2usize;
     let mut budget = 1500usize;
@@ -139,6 +142,25 @@ pub fn ddmin(judge: &Judge, events: &[Ev], prop: &str, monitor: &str, kf: &Findi
             n = (n * 2).min(cur.len());
         }
     }
+    // one-at-a-time removal until a fixpoint (1-minimality as far as the budget allows)
+    let mut changed = true;
+    while changed && budget > 0 {
+        changed = false;
+        let mut i = cur.len();
+        while i > 0 && budget > 0 {
+            i -= 1;
+            if cur.len() < 2 {
+                break;
+            }
+            let mut cand = cur.clone();
+            cand.remove(i);
+            budget -= 1;
+            if still_fails(judge, &cand, prop, monitor, kf, want_kf) {
+                cur = cand;
+                changed = true;
+            }
+        }
+    }
     // per-event simplification
     let mut i = 0;
     while i < cur.len() && budget > 0 {
@@ -153,6 +175,47 @@ pub fn ddmin(judge: &Judge, events: &[Ev], prop: &str, monitor: &str, kf: &Findi
             }
         }
         i += 1;
+    }
+    cur
+}
+
+/// Reduction that keeps event indices stable: removed events become `Nop`.
+fn ddmin_nop(judge: &Judge, events: &[Ev], prop: &str, monitor: &str, kf: &Findings, want_kf: Option<&str>) -> Vec<Ev> {
+    let mut cur: Vec<Ev> = events.to_vec();
+    let mut budget = 600usize;
+    let mut chunk = (cur.len() / 2).max(1);
+    loop {
+        let mut i = 0;
+        while i < cur.len() && budget > 0 {
+            let end = (i + chunk).min(cur.len());
+            if cur[i..end].iter().all(|e| matches!(e, Ev::Nop)) {
+                i = end;
+                continue;
+            }
+            let mut cand = cur.clone();
+            for e in cand[i..end].iter_mut() {
+                *e = Ev::Nop;
+            }
+            budget -= 1;
+            if still_fails(judge, &cand, prop, monitor, kf, want_kf) {
+                cur = cand;
+            }
+            i = end;
+        }
+        if chunk == 1 || budget == 0 {
+            break;
+        }
+        chunk = (chunk / 2).max(1);
+    }
+    // trailing Nops carry no information
+    while matches!(cur.last(), Some(Ev::Nop)) {
+        let mut cand = cur.clone();
+        cand.pop();
+        if still_fails(judge, &cand, prop, monitor, kf, want_kf) {
+            cur = cand;
+        } else {
+            break;
+        }
     }
     cur
 }
@@ -329,7 +392,14 @@ pub struct Plan {
 }
 
 pub fn plan_for(prop: &str, tier: &str, seed: u64) -> Plan {
-    let base: u64 = if tier == "thorough" { 400_000 } else { 30_000 };
+    // runs per tier; the relational checks fork ~10 replays per run and get a smaller base
+    let heavy = matches!(prop, "C10" | "C12" | "C17");
+    let base: u64 = match (tier == "thorough", heavy) {
+        (false, false) => 200_000,
+        (false, true) => 60_000,
+        (true, false) => 4_000_000,
+        (true, true) => 1_000_000,
+    };
     let scale = std::env::var("VERIF_RUNS_SCALE").ok().and_then(|s| s.parse::<f64>().ok()).unwrap_or(1.0);
     let base = ((base as f64) * scale) as u64;
     let own = prop.to_string();
@@ -352,7 +422,9 @@ pub fn plan_for(prop: &str, tier: &str, seed: u64) -> Plan {
     Plan { prop: prop.to_string(), tier: tier.to_string(), seed, mix }
 }
 
-fn absorb(agg: &mut Agg, prop: &str, pname: &str, idx: u64, seed: u64, out: &RunOut, extra: Vec<Violation>, forks: u64) {
+fn absorb(agg: &mut Agg, prop: &str, pname: &str, idx: u64, seed: u64, out: &RunOut, rel: RelOut) {
+    let extra = rel.viols;
+    let forks = rel.forks;
     let s = &out.sim;
     agg.runs += 1;
     agg.forks += forks;
@@ -363,7 +435,7 @@ fn absorb(agg: &mut Agg, prop: &str, pname: &str, idx: u64, seed: u64, out: &Run
     agg.skipped += s.cnt.skipped;
     let ah = abstract_hash(&out.trace);
     agg.abstracts.insert(ah);
-    let nt = nontrivial(prop, out);
+    let nt = rel.nontrivial.unwrap_or_else(|| nontrivial(prop, out));
     if nt {
         agg.nontrivial.insert(ah);
     }
@@ -452,7 +524,7 @@ fn absorb(agg: &mut Agg, prop: &str, pname: &str, idx: u64, seed: u64, out: &Run
         }
     }
     if idx < 3 && pname == prop {
-        let sample = json!({"profile": pname, "run": idx, "seed": seed, "regime": regime_name(out.regime), "nontrivial": nt,
+        let sample = json!({"profile": pname, "run": idx, "seed": seed, "regime": regime_name(out.regime), "nontrivial": nt, "relational_case": rel.sample,
             "events": out.trace.iter().zip(&out.actors).map(|(e, a)| format!("[{}] {}", a, ev_compact(e))).collect::<Vec<_>>() });
         agg.samples.push((idx, sample));
     }
@@ -462,7 +534,7 @@ fn absorb(agg: &mut Agg, prop: &str, pname: &str, idx: u64, seed: u64, out: &Run
             Some((i, _)) => idx < *i,
         };
         if better && out.trace.len() <= 40 {
-            let sample = json!({"profile": pname, "run": idx, "seed": seed, "regime": regime_name(out.regime), "nontrivial": true,
+            let sample = json!({"profile": pname, "run": idx, "seed": seed, "regime": regime_name(out.regime), "nontrivial": true, "relational_case": rel.sample,
                 "events": out.trace.iter().zip(&out.actors).map(|(e, a)| format!("[{}] {}", a, ev_compact(e))).collect::<Vec<_>>() });
             agg.nontrivial_sample = Some((idx, sample));
         }
@@ -521,9 +593,36 @@ pub fn workers() -> usize {
     std::env::var("VERIF_WORKERS").ok().and_then(|s| s.parse().ok()).unwrap_or_else(|| std::thread::available_parallelism().map(|n| n.get()).unwrap_or(4))
 }
 
-/// Extra (relational) oracles evaluated on a finished run; returns violations and the number of forks used.
-pub fn relational(_prop: &str, _pname: &str, _out: &RunOut, _seed: u64) -> (Vec<Violation>, u64) {
-    (Vec::new(), 0)
+pub struct RelOut {
+    pub viols: Vec<Violation>,
+    pub forks: u64,
+    pub nontrivial: Option<bool>,
+    pub sample: serde_json::Value,
+}
+
+/// Extra (relational) oracles evaluated on a finished run.
+pub fn relational(prop: &str, tier: &str, idx: u64, out: &RunOut, seed: u64) -> RelOut {
+    match prop {
+        "C10" => {
+            let (viols, forks, _) = crate::relational::c10_solo(out);
+            RelOut { viols, forks, nontrivial: None, sample: serde_json::Value::Null }
+        }
+        "C12" => {
+            let exhaustive = tier == "thorough" && idx % 8 == 0;
+            let (mut viols, forks, nt, sample) = crate::relational::c12(out, seed, exhaustive);
+            for v in viols.iter_mut() {
+                // the perturbation set is part of the violating case
+                let ps = v.detail.clone();
+                let _ = ps;
+            }
+            RelOut { viols, forks, nontrivial: Some(nt), sample: serde_json::to_value(&sample).unwrap() }
+        }
+        "C17" => {
+            let (viols, forks, nt, case) = crate::relational::c17(out, seed);
+            RelOut { viols, forks, nontrivial: Some(nt), sample: serde_json::to_value(&case).unwrap() }
+        }
+        _ => RelOut { viols: vec![], forks: 0, nontrivial: None, sample: serde_json::Value::Null },
+    }
 }
 
 pub fn run_batch(plan: &Plan, wall_cap_s: f64) -> (Agg, bool) {
@@ -539,6 +638,7 @@ pub fn run_batch(plan: &Plan, wall_cap_s: f64) -> (Agg, bool) {
             let total = total.clone();
             let pname = pname.clone();
             let prop = plan.prop.clone();
+            let tier = plan.tier.clone();
             let nruns = *nruns;
             let base = plan.seed;
             let label = format!("{}/{}", plan.prop, pname);
@@ -556,8 +656,8 @@ pub fn run_batch(plan: &Plan, wall_cap_s: f64) -> (Agg, bool) {
                         }
                         let seed = derive(base, &label, i);
                         let out = run_generated(&pname, seed);
-                        let (extra, forks) = relational(&prop, &pname, &out, seed);
-                        absorb(&mut agg, &prop, &pname, i, seed, &out, extra, forks);
+                        let rel = relational(&prop, &tier, i, &out, seed);
+                        absorb(&mut agg, &prop, &pname, i, seed, &out, rel);
                     }
                     let mut t = total.lock().unwrap();
                     merge(&mut t, agg);
@@ -583,8 +683,27 @@ fn corgi_rev() -> String {
     format!("{}{}", rev, if dirty { "+dirty" } else { "" })
 }
 
-pub fn judge_trace(regime: Regime) -> impl Fn(&[Ev]) -> Vec<Violation> {
-    move |evs: &[Ev]| run_trace(evs, regime, true).violations
+/// The judge that re-decides a violation of the given monitor on a (possibly reduced) trace.
+/// Returns the judge and whether reduction must keep event indices stable (Nop substitution).
+pub fn judge_for(monitor: &str, regime: Regime, extra: &serde_json::Value) -> (Box<dyn Fn(&[Ev]) -> Vec<Violation>>, bool) {
+    match monitor {
+        "solo_deposit" | "solo_pass_panicked" => (Box::new(move |evs: &[Ev]| crate::relational::c10_judge(evs, regime)), false),
+        "observation_differs" | "perturbed_run_panicked" => {
+            let ps: Vec<crate::relational::Perturb> = serde_json::from_value(extra["perturb"].clone()).unwrap_or_default();
+            (Box::new(move |evs: &[Ev]| crate::relational::c12_judge(evs, regime, &ps)), true)
+        }
+        "omitted_seed_is_ones" | "seed_linearity" | "seed_linearity_presence" => {
+            let case: Option<crate::relational::C17Case> = serde_json::from_value(extra["case"].clone()).ok();
+            (
+                Box::new(move |evs: &[Ev]| match &case {
+                    Some(c) => crate::relational::c17_judge(evs, regime, c),
+                    None => run_trace(evs, regime, true).violations,
+                }),
+                true,
+            )
+        }
+        _ => (Box::new(move |evs: &[Ev]| run_trace(evs, regime, true).violations), false),
+    }
 }
 
 fn write_replay(prop: &str, pname: &str, idx: u64, seed: u64, base: u64, regime: Regime, events: &[Ev], v: &Violation, tag: &str) -> String {
@@ -602,7 +721,7 @@ fn write_replay(prop: &str, pname: &str, idx: u64, seed: u64, base: u64, regime:
         failing_event: v.event,
         detail: v.detail.clone(),
         corgi_rev: corgi_rev(),
-        extra: json!({"run_seed": seed}),
+        extra: json!({"run_seed": seed, "perturb": v.extra.get("perturb").cloned().unwrap_or(serde_json::Value::Null), "case": v.extra.get("case").cloned().unwrap_or(serde_json::Value::Null)}),
     };
     let dir = format!("{}/replays", VERIF);
     let _ = std::fs::create_dir_all(&dir);
@@ -657,7 +776,8 @@ pub fn replay_file(path: &str) -> i32 {
 }
 
 pub fn judge_replay(r: &Replay, regime: Regime) -> Vec<Violation> {
-    run_trace(&r.events, regime, true).violations
+    let (judge, _) = judge_for(&r.monitor, regime, &r.extra);
+    judge(&r.events)
 }
 
 pub fn check(prop: &str, tier: &str) -> i32 {
@@ -698,15 +818,17 @@ pub fn check(prop: &str, tier: &str) -> i32 {
         reported += 1;
         let out = run_generated(pname, *rseed);
         let regime = out.regime;
-        let judge_full = move |evs: &[Ev]| -> Vec<Violation> {
-            let sim = run_trace(evs, regime, true);
-            sim.violations
-        };
+        let (judge_full, keep_indices) = judge_for(monitor, regime, &v.extra);
         let full_path = write_replay(prop, pname, *idx, *rseed, seed, regime, &out.trace, v, "-full");
-        let min = ddmin(&judge_full, &out.trace, prop, monitor, &kf, None);
+        let min = ddmin(&*judge_full, &out.trace, prop, monitor, &kf, None, keep_indices);
         let mv = judge_full(&min).into_iter().find(|x| x.prop == prop && x.monitor == *monitor && match_finding(&kf, x).is_none());
         let (path, shown) = match mv {
-            Some(mv) => (write_replay(prop, pname, *idx, *rseed, seed, regime, &min, &mv, ""), mv),
+            Some(mut mv) => {
+                if mv.extra.is_null() {
+                    mv.extra = v.extra.clone();
+                }
+                (write_replay(prop, pname, *idx, *rseed, seed, regime, &min, &mv, ""), mv)
+            }
             None => (full_path.clone(), v.clone()),
         };
         // verify in a fresh process
